@@ -87,6 +87,7 @@ func c18MatchComp(p, s string) bool {
 type c18Info struct {
 	overlap, recreated bool
 	slow                int
+	slowOps             []string
 }
 
 var c18Mu sync.Mutex // the working directory is process-global
@@ -319,6 +320,43 @@ func runC18x(c c18Case, info *c18Info) *vstat.Failure {
 			must(os.RemoveAll(abs("d.log")))
 			delete(tree, "d.log")
 			delete(tree, "d.log/inner.log")
+		case "dir-to-file":
+			// the directory with the log-like name gives way to a regular file of that name
+			if tree["d.log"] != "dir" {
+				break
+			}
+			must(os.RemoveAll(abs("d.log")))
+			delete(tree, "d.log/inner.log")
+			delete(tree, "d.log")
+			// let a stream on the file inside the directory see that it is gone
+			// before the name is taken by a file (afterwards its stat fails with
+			// ENOTDIR, which the stream treats as a transient error, not as removal)
+			delete(tailed, "d.log/inner.log")
+			sw.Broadcast()
+			if !await(5*time.Second, func() bool {
+				return sw.Waiting() == len(tailed) && expInt("log_count")-logCount0 == int64(len(tailed))
+			}) {
+				info.slow++
+			}
+			must(os.WriteFile(abs("d.log"), nil, 0o644))
+			tree["d.log"] = "file"
+		case "delete-recreate":
+			// a tailed file is deleted, its stream notices, and a new file of the
+			// same name appears before the next pattern poll
+			if tree[n] != "file" {
+				break
+			}
+			must(os.Remove(abs(n)))
+			delete(tree, n)
+			delete(tailed, n)
+			sw.Broadcast()
+			if !await(5*time.Second, func() bool {
+				return sw.Waiting() == len(tailed) && expInt("log_count")-logCount0 == int64(len(tailed))
+			}) {
+				info.slow++
+			}
+			must(os.WriteFile(abs(n), nil, 0o644))
+			tree[n] = "file"
 		case "mknull":
 			// a matching name that is not a regular file (a symlink to a
 			// character device): never tailed, and no obstacle for the others
@@ -335,7 +373,11 @@ func runC18x(c c18Case, info *c18Info) *vstat.Failure {
 			delete(tree, "0null.log")
 		case "poll":
 		}
+		slow0 := info.slow
 		settle()
+		if info.slow > slow0 {
+			info.slowOps = append(info.slowOps, st.Op)
+		}
 		if f := probe(si, what); f != nil {
 			return f
 		}
@@ -379,7 +421,7 @@ func TestC18(t *testing.T) {
 	st := vstat.New("C18", "histories on a real directory tree (files a.log b.log c.log ab.log x.log.gz note.txt sub/c.log sub/d.log, a directory named d.log) with 1-3 overlapping glob patterns (absolute, and relative resolved against the working directory) and an optional ignore regex: create, delete, rename (matching <-> non-matching names), mkdir/rmdir of the log-named directory, idle polls; after every step (pattern poll + stream wake barriers) a unique line is appended to EVERY regular file of the tree and must arrive exactly once, attributed to its path, for the model's tailed set and never for the others. non-trivial = a file matched by >= 2 patterns, or a deleted path re-created and tailed again; distinct by case")
 	st.Assumptions = []string{"glob matching of the model is a 30-line matcher of its own (*, [set], literal; per path component)", "a file is tailed from the next pattern poll after it exists; one tailer at a time (working directory is process-global)"}
 	st.Run(t, c18RunRaw, func() {
-		ops := []string{"create", "create", "create", "delete", "rename", "rename", "mkdir", "rmdir", "mknull", "rmnull", "poll"}
+		ops := []string{"create", "create", "create", "delete", "delete-recreate", "rename", "rename", "mkdir", "rmdir", "dir-to-file", "mknull", "rmnull", "poll"}
 		st.Check(t, func(rt *rapid.T) {
 			var c c18Case
 			defer st.Guard(func() any { return c })
@@ -414,6 +456,9 @@ func TestC18(t *testing.T) {
 			}
 			if info.slow > 0 {
 				st.ClassN("barrier-deadline-hit", info.slow)
+				for _, o := range info.slowOps {
+					st.Class("barrier-deadline-hit-after:" + o)
+				}
 			}
 			if ig := c18Ignores[c.Ignore%len(c18Ignores)]; ig != "" {
 				st.Class("with-ignore-regex")
